@@ -19,6 +19,7 @@ from eventlet.greenio import GreenSocket
 import eventlet.wsgi
 import greenlet
 
+from gunicorn import util
 from gunicorn.workers.base_async import AsyncWorker
 from gunicorn.sock import ssl_wrap_socket
 
@@ -152,7 +153,14 @@ class EventletWorker(AsyncWorker):
 
     def handle(self, listener, client, addr):
         if self.cfg.is_ssl:
-            client = ssl_wrap_socket(client, self.cfg)
+            try:
+                client = ssl_wrap_socket(client, self.cfg)
+            except OSError as e:
+                # with do_handshake_on_connect the handshake is part of the
+                # wrap: a peer that fails it must not take the acceptor down
+                self.log.debug("Error during the TLS handshake: %s", e)
+                util.close(client)
+                return
         super().handle(listener, client, addr)
 
     def run(self):
